@@ -12,7 +12,7 @@ package funnelx
 // did it reach Processor.Process, its final status, how often and in what shape
 // it appeared on the node's outbound channel; and how Run ended. A node that
 // does not take the next message, or does not return after its inbound channel
-// was closed, within V1Deadline is the observation "hang". Always run in a
+// was closed, within V1ParDeadline is the observation "hang". Always run in a
 // child process (the worker goroutines can panic, a wedged node leaks its
 // goroutines). No context cancellation / force stop in this family.
 //
@@ -48,6 +48,10 @@ type V1PObs struct {
 }
 
 const v1ParMaxWorkers = 4
+
+// V1ParDeadline bounds one v1-par case (a regular one takes a few milliseconds);
+// exceeding it is the observation "hang".
+var V1ParDeadline = 6 * time.Second
 
 func v1ParValidate(c V1Case) {
 	if c.Workers < 2 || c.Workers > v1ParMaxWorkers {
@@ -252,7 +256,7 @@ func runV1Par(c V1Case) V1Obs {
 		}
 	}()
 
-	deadline := time.After(V1Deadline)
+	deadline := time.After(V1ParDeadline)
 	hang := ""
 	handed := 0
 feed:
